@@ -129,7 +129,9 @@ func aliasedPerson() *sbom.Person {
 func kinds() []copyKind {
 	return []copyKind{
 		{"Node", func() map[string]proto.Message {
-			return map[string]proto.Message{"full": fullNode("A", 2), "sparse": &sbom.Node{Id: "n", Name: "s", Suppliers: []*sbom.Person{{Name: "sup"}}}, "empty": &sbom.Node{}, "new": sbom.NewNode(), "aliased": aliasedNode()}
+			em := fullNode("E", 2)
+			gen.EmptyMaps(em)
+			return map[string]proto.Message{"full": fullNode("A", 2), "full-empty-maps": em, "sparse": &sbom.Node{Id: "n", Name: "s", Suppliers: []*sbom.Person{{Name: "sup"}}}, "empty": &sbom.Node{}, "new": sbom.NewNode(), "aliased": aliasedNode()}
 		}, func(m proto.Message) proto.Message { return m.(*sbom.Node).Copy() },
 			func(a, b proto.Message) (bool, bool) { return a.(*sbom.Node).Equal(b.(*sbom.Node)), true }},
 		{"Edge", func() map[string]proto.Message {
@@ -146,7 +148,7 @@ func kinds() []copyKind {
 		{"ExternalReference", func() map[string]proto.Message {
 			e := &sbom.ExternalReference{}
 			gen.Full(e, "A", 2)
-			return map[string]proto.Message{"full": e, "empty": &sbom.ExternalReference{}}
+			return map[string]proto.Message{"full": e, "empty": &sbom.ExternalReference{}, "empty-map": &sbom.ExternalReference{Url: "u", Hashes: map[int32]string{}}}
 		}, func(m proto.Message) proto.Message { return m.(*sbom.ExternalReference).Copy() },
 			func(a, b proto.Message) (bool, bool) { return false, false }},
 		{"NodeList", func() map[string]proto.Message {
@@ -177,6 +179,9 @@ func operand(name string) *sbom.NodeList {
 		x := aliasedNode()
 		x.Id = "a"
 		nl = &sbom.NodeList{Nodes: []*sbom.Node{x}, RootElements: []string{"a"}}
+	case "ab-empty-maps":
+		nl = &sbom.NodeList{Nodes: []*sbom.Node{n("a", "E"), n("b", "E")}, Edges: []*sbom.Edge{e("a", sbom.Edge_contains, "b")}, RootElements: []string{"a"}}
+		gen.EmptyMaps(nl)
 	case "a-sparse":
 		nl = &sbom.NodeList{Nodes: []*sbom.Node{{Id: "a", Name: "only-name"}}, RootElements: []string{"a"}}
 	case "empty":
@@ -187,7 +192,7 @@ func operand(name string) *sbom.NodeList {
 	return spareList(nl)
 }
 
-var operandNames = []string{"abc", "bcd", "ae", "a-sparse", "a-aliased", "empty"}
+var operandNames = []string{"abc", "bcd", "ae", "a-sparse", "a-aliased", "ab-empty-maps", "empty"}
 
 // listDeviations enumerates deviations at every field path of a node list: the
 // list's own fields, every node (full recursion), every edge.
